@@ -121,9 +121,25 @@ def build(reg, src):
         st.env['self'] = st.alloc('WebServerHandle', {'bind': VOpaque(hint='bind'), 'port': VOpaque(hint='port'),
                                                       'runner': VOpaque(hint='runner', nonnull=True), 'task': VOpaque(hint='task', nonnull=True)}, fresh=False)
         st.ghost['events'] = VList([])
+        st.ghost['verifying_shutdown'] = lift(True)
     reg.fn(WEB + 'WebServerHandle.shutdown', setup=sh_setup, returns=None,
-           ensures=[lambda s, r: VBool([e for e in s.st.ghost['events'].items] == ['cancel', 'cleanup']),
-                    lambda s, r: And(is_none(s.st.field(s.self, 'runner')), is_none(s.st.field(s.self, 'task')))])
+           ensures=[lambda s, r: VBool([e for e in s.st.ghost['events'].items] == ['cancel', 'cleanup']) if 'verifying_shutdown' in s.st.ghost else VBool(True),
+                    lambda s, r: And(is_none(s.st.field(s.self, 'runner')), is_none(s.st.field(s.self, 'task')))],
+           sets=lambda s, r: [(s.self, 'runner', NONE), (s.self, 'task', NONE)])
+
+    # ---------------- .webc(x): x is what .web(...) returned and a Klong program holds - the WebServerHandle itself.  For a live handle
+    # the server is shut down exactly once and 1 is returned (anything else returns 0 without touching a server)
+    def webc_setup(eng, st):
+        h = st.alloc('WebServerHandle', {'bind': VOpaque(hint='bind'), 'port': VOpaque(hint='port'),
+                                         'runner': VOpaque(hint='runner', nonnull=True), 'task': VOpaque(hint='task', nonnull=True)}, fresh=False)
+        st.env['x'] = h
+        st.env['klong'] = VOpaque(hint='klong', nonnull=True)
+        st.ghost['shutdowns'] = lift(0)
+    reg.fns[WEB + 'WebServerHandle.shutdown'].ghost_at_call = lambda eng, st, s, r: 'shutdowns' in st.ghost and st.ghost.__setitem__('shutdowns', st.ghost['shutdowns'] + 1)
+    reg.fn(WEB + 'eval_sys_fn_shutdown_web_server', setup=webc_setup, returns='opaque',
+           ensures=[lambda s, r: And(s.g('shutdowns') == 1, (r == 1) if isinstance(r, VInt) else VBool(False))])
+    reg.externals['asyncio.run_coroutine_threadsafe'] = lambda e, st, a, k, n: [(st, VTuple(['cfuture', a[0]]))]
+    reg.externals['print'] = lambda e, st, a, k, n: [(st, NONE)]
 
     # ---------------- websocket
     def ws_listen_setup(eng, st):
@@ -184,6 +200,7 @@ def build(reg, src):
     ws_kinds.__name__ = 'ws-message-kinds'
     reg.extra_checks.append(ws_kinds)
     reg.bounded.append(dict(check='ws-message-kinds', tool='native execution of klong[\'.ws.m\'](conn, msg)', bound='13 JSON kinds of message', result='see rows'))
+    reg.replays.append((r'shutdown_web_server|WebServerHandle', rp.replay_webc))
     reg.replays.append((r'.', rp.replay_web))
 
 
@@ -204,6 +221,15 @@ def configure(eng):
     eng.module_names |= {'web', 'concurrent', 'websockets'}
     eng.opaque_methods |= {'post', 'items', 'get_arity', 'add_get', 'add_post', 'cancel', 'cleanup', 'recv', 'send', 'split', 'set_result', 'call_soon_threadsafe', 'result', 'setup', 'start'}
     eng.src.EXTRA_BASES.update({'websockets.exceptions.ConnectionClosed': ['Exception'], 'ConnectionClosed': ['Exception']})
+
+    prev_method = eng.hooks.get('method')
+
+    def method_cf(e, o, m, args, kwargs, st, node):
+        if isinstance(o, VTuple) and o.items and o.items[0] == 'cfuture' and m == 'result':
+            return [(st, o.items[1])]
+        return prev_method(e, o, m, args, kwargs, st, node) if prev_method else None
+    eng.hooks['method'] = method_cf
+    eng.module_names |= {'asyncio'}
 
     def b_dict(e, args, kwargs, st, node):
         if len(args) == 1 and isinstance(args[0], VOpaque):
